@@ -406,7 +406,7 @@ OBLIGATIONS = [
     Ob(fn="output_filter_empty_query", clause="an empty query string is never a negative case", timeout=60, functions=["schemathesis.specs.openapi.negative.is_non_empty_query"],
        symbolic="(none)", bounds="3 concrete values"),
     Ob(fn="mutate_kernel", clause="a successful mutation really changes a constraint, never modifies the original schema, and keeps non-body locations object-typed",
-       tiers=("thorough",), timeout={"quick": 200, "thorough": 900}, params={"quick": [0, 3, 7, 11, 15, 19, 20, 22, 23], "thorough": range(len(MSCHEMAS) * len(MLOCS))},
+       tiers=("thorough",), timeout={"quick": 200, "thorough": 400}, params={"quick": [0, 3, 7, 11, 15, 19, 20, 22, 23], "thorough": range(len(MSCHEMAS) * len(MLOCS))},
        functions=["schemathesis.specs.openapi.negative.mutations.MutationContext.mutate",
                                                                                                        "schemathesis.specs.openapi.negative.mutations.remove_required_property / negate_constraints / change_properties / change_type / change_items"],
        symbolic="every draw() choice: sampled_from indices, feature flags, booleans, the order of mutations", bounds={"quick": "9 (schema, location) shapes; first two sampled_from choices in {0,1}, one feature flag, 2 orders", "thorough": "6 schemas x 4 locations; 4 index choices, 3 booleans, 6 orders"},
